@@ -74,6 +74,7 @@ type c05Item struct {
 	Restarts  int    `json:"restarts,omitempty"` // service worker: leading invocations that return an error
 	Cycle     int    `json:"cycle"`              // start cycle of the module that launches the item (1 or 2)
 	Never     bool   `json:"never,omitempty"`    // never returns (stop-timeout path)
+	AtStop    bool   `json:"at_stop,omitempty"`  // submitted by a harness goroutine the moment the module's context was cancelled
 	mod       *c05Mod
 }
 
@@ -134,7 +135,8 @@ func c05Child(dir string, raw []byte) {
 		begun: map[string]bool{}, preTsk: map[string]*modules.Task{}}
 	h.hs = &hookSet{log: h.log, lat: h.lat, rules: spec.Hooks, rnd: vlib.NewRand(spec.Seed, "c05/hookdelay", uint64(spec.Case))}
 	h.hs.install("modules.stop.ctrlset", "modules.stop.flagged", "modules.stop.cancelled", "modules.stop.timeout",
-		"modules.stop.check", "modules.worker.dec", "modules.task.defer", "modules.task.prelock", "modules.mt.conclude")
+		"modules.stop.check", "modules.worker.dec", "modules.task.defer", "modules.task.prelock", "modules.mt.conclude",
+		"modules.ctrlfn.done") // (the last one does not exist yet: requested hook point)
 
 	// internal watchdog: keep the event log if the scenario wedges
 	go func() {
@@ -505,16 +507,26 @@ func (h *c05H) launchCycle(cyc int) {
 	}
 	for _, ms := range h.spec.Mods {
 		for _, it := range ms.Items {
-			if it.Cycle != cyc || !online(it) {
-				continue
+			h.mu.Lock()
+			modCycle := h.cycle[ms.Name]
+			h.mu.Unlock()
+			if it.Cycle != cyc || !online(it) || modCycle != cyc {
+				continue // (a disabled module that is still needed as a dependency is not restarted)
 			}
 			switch {
+			case it.AtStop:
+				it := it
+				go func() {
+					if h.lat.wait("modules.stop.cancelled|"+it.mod.Name, 60*time.Second) {
+						h.launch(it)
+					}
+				}()
 			case it.FromStart:
 				if it.Settled {
 					settled = append(settled, it) // only waited for
 				}
-			case isQueueTask(it.Kind) && it.Settled:
-				first = append(first, it) // at most one per scenario: takes the (empty) queue first
+			case (isQueueTask(it.Kind) || it.Kind == kTaskO) && it.Settled && len(first) == 0:
+				first = append(first, it) // takes the (empty) queue first
 			case it.Settled:
 				settled = append(settled, it)
 			default:
@@ -524,6 +536,10 @@ func (h *c05H) launchCycle(cyc int) {
 	}
 	for _, it := range first {
 		h.launch(it)
+		// it has to own the queue before anything else is queued behind it
+		if !h.lat.wait("item.begin|"+it.ID, 10*time.Second) {
+			h.note("queue task %s had not begun after 10s", it.ID)
+		}
 	}
 	for _, it := range settled {
 		if !it.FromStart {
